@@ -29,9 +29,9 @@ class Contract(RowCheck):
     FACTORS = {
         "kernel": ["tpcn", "rwm"], "resample": ["mult", "syst"], "clustering": [False, True],
         "mode": ["vector", "scalar", "blobs"], "metric": ["ess", "vv0.3", "vv2"], "ntot": [1, 4, 8], "d": [1, 2, 3],
-        "zero": [False, True],
+        "zero": [False, True], "boundary": ["none", "periodic", "reflective"],
     }
-    DEFAULTS = {"clustering": False, "metric": "ess", "zero": False, "mode": "vector", "kernel": "tpcn", "resample": "mult", "d": 1, "ntot": 4}
+    DEFAULTS = {"boundary": "none", "clustering": False, "metric": "ess", "zero": False, "mode": "vector", "kernel": "tpcn", "resample": "mult", "d": 1, "ntot": 4}
     REPEATS = {"quick": 3, "thorough": 3}
 
     def execute(self, case):
@@ -40,7 +40,7 @@ class Contract(RowCheck):
         rng = np.random.default_rng(seed)
         t = Target.from_spec(simple_target_spec(rng, d, row["mode"], zero=row["zero"]))
         np.random.seed(seed % 2**31)
-        s = make_sampler(t, row_to_cfg(row, d))
+        s = make_sampler(t, row_to_cfg(row, d, seed))
         st = core_of(s).state
         n_total = row["ntot"] * N
         with quiet():
